@@ -87,6 +87,13 @@ def gen(seed, tier, insts, replay=None):
                     l2 = G.line('mapeq', i) + ' ext=%s' % C.fmt(es) + (' str=%s' % C.fmt(v['str']) if 'str' in v else '') + (' pv=%d' % v['pv'] if 'pv' in v else '') + \
                          ' ext2=%s' % C.fmt(b['ext2']) + (' str2=%s' % C.fmt(b['str2']) if 'str2' in b else '') + (' pv2=%d' % b['pv2'] if 'pv2' in b else '')
                     eqs.append((l2, dict(inst=list(i), a=dict(ext=es, **v), b=b)))
+                    # two values of ONE mapping type with a mixed pattern: a second operand that differs in exactly one dynamic extent, for every dynamic position
+                    if spat is not None and spat == dpat and sk == dk and ssp == dsp and t == u and sk != 'stride' and 'pv' not in v:
+                        for kx in range(r):
+                            if dpat[kx] is not None: continue
+                            e3 = list(es); e3[kx] += 1
+                            l3 = G.line('mapeq', i) + ' ext=%s ext2=%s' % (C.fmt(es), C.fmt(e3))
+                            eqs.append((l3, dict(inst=list(i), a=dict(ext=es), b=dict(ext2=e3))))
     return conv, eqs
 
 def check(prop, tier, seed, replay=None):
